@@ -23,7 +23,7 @@ AllOK ==
   /\ PowerAmount(0) = <<>> /\ PowerAmount(7) = BMul(FromNat(7), E18)
   /\ IsMultE18(PowerAmount(3)) /\ ~IsMultE18(BAdd(PowerAmount(3), <<1>>)) /\ ~IsMultE18(<<>>)
   /\ BDivE18(BAdd(PowerAmount(12345), <<999>>)) = FromNat(12345)
-  /\ Len(Two256) = 26 /\ Two256 = BMulSmall(Two255, 2) /\ IsBig(Two256)
+  /\ Len(Two256) = 26 /\ Two256 = BMulSmall(Two255, 2) /\ IsBig(Two256) /\ Two256 = Pow2(256) /\ Two255 = Pow2(255)
   /\ BSumSeq(<<FromNat(999), FromNat(1), FromNat(1000)>>) = FromNat(2000)
   /\ BSumFun([x \in {1, 2, 3} |-> FromNat(x * 999)], {1, 2, 3}) = FromNat(5994)
 =============================================================================
